@@ -397,10 +397,9 @@ func (s *socket) MaybeUpgrade(transport transports.Transport) {
 	onError = func(err ...any) {
 		socket_log.Debug("client did not complete upgrade - %v", err[0])
 		cleanup()
-		if transport != nil {
-			transport.Close()
-			transport = nil
-		}
+		// the variable is shared with the packet listener and the upgrade
+		// timer, which run on other goroutines: it must not be reset here
+		transport.Close()
 	}
 
 	onTransportClose = func(...any) {
